@@ -41,6 +41,11 @@ type value struct {
 	IsNode   bool
 	pos, end token.Pos
 	Comments []*ast.CommentGroup
+
+	// Set only if this is a non-nil pointer: the address of the object
+	// pointed to. Two snapshots with the same address describe one and the
+	// same AST node, possibly edited in place between them.
+	addr uintptr
 }
 
 func (v *value) Type() reflect.Type { return v.t }
@@ -83,10 +88,14 @@ func snapshot(v reflect.Value, cmap ast.CommentMap) (val *value) {
 			return &value{t: t, isNil: true}
 		}
 
-		return &value{
+		val := &value{
 			t:    t,
 			Elem: snapshot(v.Elem(), cmap),
 		}
+		if v.Kind() == reflect.Ptr {
+			val.addr = v.Pointer()
+		}
+		return val
 	case reflect.Slice:
 		children := make([]*value, v.Len())
 		for i := 0; i < v.Len(); i++ {
